@@ -138,3 +138,21 @@ Definition boundary_cut (rs : list logmsg) (n : nat) : bool :=
    getWriteLog opens with O_APPEND) *)
 Definition torn_then_appended (rs : list logmsg) (n : nat) (after : list logmsg) (stale : bytes) : buf :=
   {| b_data := firstn n (encode rs) ++ encode after; b_stale := stale |}.
+
+(* ---- opening a log for appending (repo_patches/C04-4-fix.diff, trimTornTail): walk the record
+   headers and cut the file behind the last completely written record ---- *)
+Fixpoint trim_len (fuel : nat) (rest : bytes) : nat :=
+  match fuel with
+  | O => O
+  | S fuel' =>
+    if Nat.ltb (length rest) 6 then O
+    else
+      let size := N.to_nat (le_dec (firstn 4 (skipn 2 rest))) in
+      if Nat.ltb (length rest) (6 + size) then O
+      else (6 + size + trim_len fuel' (skipn (6 + size) rest))%nat
+  end.
+Definition trim_tail (data : bytes) : bytes := firstn (trim_len (S (length data)) data) data.
+
+(* a torn file, re-opened for appending by the repaired engine, with further records appended *)
+Definition trimmed_then_appended (rs : list logmsg) (n : nat) (after : list logmsg) (stale : bytes) : buf :=
+  {| b_data := trim_tail (firstn n (encode rs)) ++ encode after; b_stale := stale |}.
